@@ -130,11 +130,7 @@ def run_container(ctx, case, data, tmp, container, spelling, max_read, rng):
             with wave.open(decoy, "wb") as fp:
                 fp.setframerate(rate), fp.setsampwidth(width), fp.setnchannels(channels)
                 fp.writeframes(bytes(len(data)))
-        with wave.open(path, "wb") as fp:
-            fp.setframerate(rate)
-            fp.setsampwidth(width)
-            fp.setnchannels(channels)
-            fp.writeframes(data)
+        AC.write_wav(path, data, rate, width, channels, trailing_chunk=bool((case["pcm_seed"] >> 37) & 1))  # a LIST chunk after the audio is not audio
         if container == "wave_obj":
             gen = auditok.split(WaveAudioSource(path), **kw)
         elif container == "wav_path_obj":
